@@ -1190,3 +1190,201 @@ func ruleMessageAddressed(e *Engine, r *Report) {
 	}
 	r.floor(rule, n, 3)
 }
+
+// ---------------------------------------------------------------------------
+// A small affine evaluator: the possible values of v as `atom + k`, where atom
+// is a call of one designated function (identified by its resolved argument)
+// and k a constant; through phis, local variables, +/- constants and same-
+// package helper calls (parameters bound to the call's arguments).
+
+type affTerm struct {
+	atom string
+	k    int64
+}
+
+func (e *Engine) affine(v ssa.Value, atomFn *ssa.Function, resolve func(ssa.Value) ssa.Value, depth int) ([]affTerm, bool) {
+	if depth > 6 || v == nil {
+		return nil, false
+	}
+	v = stripConv(resolve(v))
+	switch x := v.(type) {
+	case *ssa.BinOp:
+		if x.Op != token.ADD && x.Op != token.SUB {
+			return nil, false
+		}
+		var c *ssa.Const
+		var other ssa.Value
+		if k, ok := stripConv(x.Y).(*ssa.Const); ok {
+			c, other = k, x.X
+		} else if k, ok := stripConv(x.X).(*ssa.Const); ok && x.Op == token.ADD {
+			c, other = k, x.Y
+		}
+		if c == nil {
+			return nil, false
+		}
+		u, isU := constantUint64(c)
+		if !isU {
+			return nil, false
+		}
+		ts, ok := e.affine(other, atomFn, resolve, depth+1)
+		if !ok {
+			return nil, false
+		}
+		out := make([]affTerm, len(ts))
+		for i, t := range ts {
+			d := int64(u)
+			if x.Op == token.SUB {
+				d = -d
+			}
+			out[i] = affTerm{t.atom, t.k + d}
+		}
+		return out, true
+	case *ssa.Phi:
+		var out []affTerm
+		for _, ed := range x.Edges {
+			ts, ok := e.affine(ed, atomFn, resolve, depth+1)
+			if !ok {
+				return nil, false
+			}
+			out = append(out, ts...)
+		}
+		return out, true
+	case *ssa.UnOp:
+		if x.Op == token.MUL {
+			if al := rootAlloc(x.X); al != nil {
+				var out []affTerm
+				vals := storesIntoPath(al, addrPath(x.X))
+				if len(vals) == 0 {
+					return nil, false
+				}
+				for _, sv := range vals {
+					ts, ok := e.affine(sv, atomFn, resolve, depth+1)
+					if !ok {
+						return nil, false
+					}
+					out = append(out, ts...)
+				}
+				return out, true
+			}
+		}
+		return nil, false
+	case *ssa.Extract:
+		c, ok := x.Tuple.(*ssa.Call)
+		if !ok {
+			return nil, false
+		}
+		return e.affineCall(c, x.Index, atomFn, resolve, depth)
+	case *ssa.Call:
+		return e.affineCall(x, 0, atomFn, resolve, depth)
+	}
+	return nil, false
+}
+
+func (e *Engine) affineCall(c *ssa.Call, idx int, atomFn *ssa.Function, resolve func(ssa.Value) ssa.Value, depth int) ([]affTerm, bool) {
+	sc := c.Call.StaticCallee()
+	if sc == nil {
+		return nil, false
+	}
+	if sc == atomFn && len(c.Call.Args) == 1 {
+		k := exprKey(resolve(c.Call.Args[0]))
+		if k == "" {
+			return nil, false
+		}
+		return []affTerm{{k, 0}}, true
+	}
+	if len(sc.Blocks) == 0 || fnPkg(sc) != fnPkg(atomFn) {
+		return nil, false
+	}
+	args := c.Call.Args
+	inner := func(v ssa.Value) ssa.Value {
+		sv := stripConv(v)
+		for i, p := range sc.Params {
+			if sv == ssa.Value(p) && i < len(args) {
+				return resolve(args[i])
+			}
+		}
+		return v
+	}
+	var out []affTerm
+	found := false
+	okAll := true
+	forEachInstr(sc, func(in ssa.Instruction) {
+		ret, ok := in.(*ssa.Return)
+		if !ok || idx >= len(ret.Results) {
+			return
+		}
+		found = true
+		ts, ok := e.affine(retOperand(ret, idx), atomFn, inner, depth+1)
+		if !ok {
+			okAll = false
+			return
+		}
+		out = append(out, ts...)
+	})
+	return out, found && okAll
+}
+
+// ruleBatchedDeleteBound (C09): removing entries up to `index` from the
+// batched entry format deletes whole batches, so the (exclusive) upper key of
+// the range must not lie above the batch that holds `index`: that batch also
+// holds live entries index+1.. . The batch id given to the upper key is
+// getBatchID(index)+k with k <= 0 on every path (today k = -1).
+func ruleBatchedDeleteBound(e *Engine, r *Report) {
+	rule := "DEP-batched-delete-bound"
+	fn := r.need("(*internal/logdb.batchedEntries).rangedOp")
+	gb := r.need("internal/logdb.getBatchID")
+	if fn == nil || gb == nil || len(fn.Params) < 4 {
+		return
+	}
+	idxParam := fn.Params[3]
+	want := exprKey(idxParam)
+	n := 0
+	forEachCall(fn, func(s ssa.CallInstruction) {
+		sc := s.Common().StaticCallee()
+		if sc == nil || sc.Name() != "SetEntryBatchKey" {
+			return
+		}
+		args := s.Common().Args
+		id := args[len(args)-1]
+		if c, ok := stripConv(id).(*ssa.Const); ok {
+			if u, isU := constantUint64(c); isU && u == 0 {
+				return // the lower key
+			}
+		}
+		n++
+		ts, ok := e.affine(id, gb, func(v ssa.Value) ssa.Value { return v }, 0)
+		good := ok && len(ts) > 0
+		worst := ""
+		for _, t := range ts {
+			if t.atom != want || t.k > 0 {
+				good = false
+				worst = fmt.Sprintf("getBatchID(%s)%+d", t.atom, t.k)
+			}
+		}
+		if !ok {
+			worst = e.describeValue(id) + " (not of the form getBatchID(index)+k)"
+		}
+		r.check(good, rule, "upper batch key of the ranged delete in rangedOp", e.ipos(s),
+			"getBatchID(index)+k with k <= 0 on every path", "the exclusive upper bound of the batch range can be "+worst+": the batch holding `index` - and with it the live entries above index - is removed (or the bound cannot be related to index at all)")
+	})
+	r.floor(rule, n, 1)
+}
+
+// ruleSessionSaveLive (C05, C08): the session image that goes into a snapshot
+// is serialised from the live session table at the moment of the call: every
+// successful path of SessionManager.SaveSessions traverses the table
+// (lrusession.save). A remembered image is stale as soon as the table is
+// replaced behind the manager's back (LoadSessions on an installed snapshot),
+// and a snapshot carrying it forgets applied series ids.
+func ruleSessionSaveLive(e *Engine, r *Report) {
+	rule := "MPT-session-save-live"
+	fn := r.need("(*internal/rsm.SessionManager).SaveSessions")
+	save := r.need("(*internal/rsm.lrusession).save")
+	if fn == nil || save == nil {
+		return
+	}
+	isSave := e.throughHelpers(func(s ssa.CallInstruction) bool { return e.CallsTo(s, save) })
+	res := e.findPath(fn, nil, func(in ssa.Instruction) bool { return e.isSuccessReturn(in) }, isSave, nil)
+	r.check(!res.Found, rule, "SessionManager.SaveSessions serialises the live table on every successful path", e.pos(fn.Pos()),
+		"no success return without traversing the session table", "SaveSessions can succeed without serialising the current session table (a remembered image is written instead): a snapshot taken after the table was replaced or changed carries stale sessions, and a retried proposal is applied twice after recovering from it", res.Trace(e)...)
+}
